@@ -88,7 +88,8 @@ def B64.down (b : B64) : Option B64 :=
   else if 2 ^ 52 < b.m then some { b with m := b.m - 1 }
   else some { b with m := 2 ^ 53 - 1, e := b.e - 1 }
 
-/-- Decision procedure for "`x` is a nearest finite binary64 value of `y`": well formed and at
+/-- Decides `IsNearestBin y x` for `y ≠ 0` of the sign of `x` (proved sound in
+`Lemmas/Digits.lean`): well formed and at
 least as close to `y` as both neighbours (zero below the least subnormal; above the largest
 finite value the competitor is the overflow threshold `2^1024`, as in IEEE 754 rounding). -/
 def nearestBinB (y : Rat) (x : B64) : Bool :=
